@@ -233,6 +233,9 @@ T_C14_WaitBound == Cfg(tid).kind = "fleet" =>
      IF x.av >= 0 THEN x.av - x.at <= Cfg(tid).fdelay + 2 * Cfg(tid).transit
      ELSE (L.now - x.at < Cfg(tid).fdelay + 2 * Cfg(tid).transit)
           \/ (L.now - x.at = Cfg(tid).fdelay + 2 * Cfg(tid).transit /\ ~e.q)
+\* "become available to the destination together": when the instant of a delivery is over, no waiting retrieval of the
+\* destination is still pending while a delivered item is unreserved (the whole batch was offered, not only its first item)
+T_C14_Delivered == Cfg(tid).kind = "fleet" => T_C04_Get
 T_C14_Order == Cfg(tid).kind = "fleet" =>
   \A i, j \in 1..Len(e.ready) : i < j => e.ready[i] < e.ready[j]
 
